@@ -143,9 +143,11 @@ func (ex *exampleValidator) validateExampleValueValidAgainstSchema() *Result {
 		}
 	}
 	if s.spec.Spec().Definitions != nil { // Safeguard
-		// reset explored schemas to get depth-first recursive-proof exploration
-		ex.resetVisited()
 		for nm, def := range s.spec.Spec().Definitions {
+			// reset explored schemas to get depth-first recursive-proof exploration (per definition: the path of a
+			// property of one definition may spell the name of another, e.g. "a" with property "b" and "a.b")
+			ex.resetVisited()
+
 			// validation lazily expands the $ref of sub-schemas in place: walk a private copy of the definition, not the caller's parsed document
 			sch, err := deepCloneSchema(def)
 			if err != nil {
